@@ -13,6 +13,12 @@ def gen_pairs(chk, mdl):
     refs += ["s:", "S:a", "g:h", "s://u@[::1]:8/a/../b", "//u@[::1]:8", "?y", "#f", "//1.2.3.4/..", "s:?y#f", "s:a:b", "./b:c", "./", ".//", ".///a"]
     bases = [t for t in uris.valid_texts(mdl, uris.small_texts(2 if q else 3, queries=(None, "q"))) if t.startswith("s:")]
     bases += ["s://u@[::1]:8/a/b?q", "s://1.2.3.4", "s://h/a/b/c/d", "S://H/%41", "s:a/b/c", "s:/a/b/c", "s://h#f", "//h/a", "a/b", ""]
+    # schemes of equal length that share a prefix / differ in one place (identical-scheme option: "equal" must mean every character)
+    refs += ["http:g", "hxxp:g", "httq:g/../x", "htTp:g", "sa:x", "sb:x", "sa:", "as:x", "http://b/x", "httpx:g", "htt:g"]
+    bases += ["http://a/b/c/d;p?q", "sa://h/a/b", "sa:/a/b", "HTTP://a/b/c"]
+    # RFC 3986 5.4.1 / 5.4.2 reference examples
+    refs += ["g:h", "g", "./g", "g/", "/g", "//g", "?y", "g?y", "#s", "g#s", "g?y#s", ";x", "g;x", "g;x?y#s", "", ".", "./", "..", "../", "../g", "../..", "../../", "../../g",
+             "../../../g", "../../../../g", "/./g", "/../g", "g.", ".g", "g..", "..g", "./../g", "./g/.", "g/./h", "g/../h", "g;x=1/./y", "g;x=1/../y", "g?y/./x", "g?y/../x", "g#s/./x", "g#s/../x", "http:g"]
     refs = sorted(set(refs)); bases = sorted(set(bases))
     return refs, bases
 
@@ -23,7 +29,10 @@ def run(chk):
     refs, bases = gen_pairs(chk, mdl)
     pairs = [(r, b, c) for b in bases for r in refs for c in (0, 1)]
     if chk.tier == "quick" and len(pairs) > 160000:
-        pairs = chk.rng.sample(pairs, 160000)
+        # the scheme-comparison and RFC 5.4 pairs are always kept
+        keepb = {"http://a/b/c/d;p?q", "sa://h/a/b", "sa:/a/b", "HTTP://a/b/c"}
+        must = [p for p in pairs if p[1] in keepb]
+        pairs = must + chk.rng.sample(pairs, 160000 - len(must))
     reqs = ["addbase %d P %s P %s" % (c, enc_s(r), enc_s(b)) for r, b, c in pairs]
     sreqs = ["spec_resolve %d %s %s" % (1 - c, enc_s(b), enc_s(r)) for r, b, c in pairs]
     model = lib.run_lines(mdl, reqs)
